@@ -11,7 +11,11 @@ for d in seeded/*/; do
   if [ "$st" = "neutralised" ]; then echo "$id $prop neutralised-by-fix (skipped)"; continue; fi
   if ! git -C /repo apply --check $PWD/$d/patch.diff 2>/dev/null; then echo "$id $prop patch-does-not-apply"; continue; fi
   git -C /repo apply $PWD/$d/patch.diff
-  out=$(./pzv check $prop 2>&1)
+  # a seed may name the checks that are expected to see it when they differ from its own property ("checks": ["C12"])
+  checks=$(python3 -c "import json;print(' '.join(json.load(open('$d/meta.json')).get('checks',[])))" 2>/dev/null)
+  out=""
+  for c in ${checks:-$prop}; do out="$out
+$(./pzv check $c 2>&1)"; done
   rules=$(echo "$out" | grep "rule=" | sed 's/.*rule=\([A-Z0-9-]*\).*/\1/' | sort -u | tr '\n' ' ')
   ex=$(python3 -c "import json;print(json.load(open('$d/meta.json')).get('expected',''))" 2>/dev/null)
   if echo "$out" | grep -q "^VIOLATION"; then echo "$id $prop detected [$rules]"; elif [ "$ex" = "missed" ]; then echo "$id $prop missed (recorded as outside reach)"; else echo "$id $prop MISSED"; fi
